@@ -11,7 +11,7 @@ Built on the C21 model of the scheduler graph (`LokiModel.C21`).  Added here:
 * item identity: `Item.__eq__` (compares lower-cased names), `Item.__hash__` (hash of the name *as stored*),
   Python `set` insertion / membership on top of an arbitrary hash function;
 * `DuplicateKernel._get_new_item_name` and `ItemFactory.get_or_create_item_from_item` on an abstract cache
-  (case-insensitive cache lookups, case-*sensitive* lookup in the plain dict `definition_items`).
+  (case-insensitive lookups in the cache and in `definition_items`).
 -/
 namespace LokiModel.C23
 open LokiModel.C21
@@ -138,7 +138,9 @@ deriving DecidableEq, Repr
 
 /-- `_get_or_create_or_rename_item` for a kernel `scope#loc` whose duplicate does not exist yet, followed by
 `ItemFactory.get_or_create_item_from_item(new_item_name, item)`: the cloned source's definition items get
-lower-cased names and go into a *plain* dict that is then queried with the raw `new_item_name`. -/
+lower-cased names and go into a `CaseInsensitiveDict` (since the `fix:` commit for duplicate-suffix-case; a plain
+dict before, see `Findings/C23.lean`) that is then queried with `new_item_name`: the query is lower-cased, the
+stored keys are the already lower-cased definition names. -/
 def cloneItem (cache : List Name) (scope loc suffix msuffix : Name) : CloneRes :=
   let r := newItemName scope loc suffix msuffix
   let scope' := r.1
@@ -147,13 +149,9 @@ def cloneItem (cache : List Name) (scope loc suffix msuffix : Name) : CloneRes :
   else
     -- new file item; definition items of the cloned file (top-level units only), names lower-cased
     let defs := if scope'.isEmpty then [lower name] else [lower scope']
-    if defs.contains name then .ok defs          -- `if name in definition_items`
+    if defs.contains (lower name) then .ok defs          -- `if name in definition_items`
     else if !scope'.isEmpty then .ok (defs ++ [lower name])   -- scope item exists now: `create_from_ir(scope[local_name], …)`
     else .failed
-
-/-- the known-finding class `duplicate-suffix-case`: a kernel that is not in a module and a suffix that changes under `.lower()` -/
-def KnownDupSuffixCase (scope loc suffix : Name) : Bool :=
-  scope.isEmpty && decide (lower (loc ++ suffix) ≠ loc ++ suffix)
 
 /-- `SGraph.successors` on the sub-graph handed to a transformation (procedure, binding and interface items;
 bindings and interfaces are followed) -/
